@@ -87,6 +87,11 @@ Theorem assemble_twice_equal : forall fixed W s n,
 Proof. exact assemble_twice_lemma. Qed.
 Print Assumptions assemble_twice_equal.
 
+Theorem assemble_after_other_assemblies_equal : forall fixed W h s, forallb is_assembly h = true ->
+  snd (g_step fixed W GHeadMat (g_run fixed W h s)) = snd (g_step fixed W GHeadMat s).
+Proof. exact assemble_after_other_assemblies_lemma. Qed.
+Print Assumptions assemble_after_other_assemblies_equal.
+
 Theorem headmat_after_reload_pinned_refuted_repaired_equal :
   snd (g_step false Gref GHeadMat (g_run false Gref [GLoad 0%nat; GLoad 0%nat] gst0)) <> snd (g_step false Gref GHeadMat (g_run false Gref [GLoad 0%nat] gst0))
   /\ snd (g_step true Gref GHeadMat (g_run true Gref [GLoad 0%nat; GLoad 0%nat] gst0)) = snd (g_step true Gref GHeadMat (g_run true Gref [GLoad 0%nat] gst0)).
@@ -141,3 +146,18 @@ Print Assumptions surfsource_assemble_twice_equal.
 
 Example mesh_partial_hypothesis_satisfiable : y_gverts (m_run m_repaired Mref [] mst0) = [] /\ clear_flags m_repaired = true.
 Proof. split; reflexivity. Qed.
+
+(* ======================= one Vector / Matrix / SymMatrix / SparseMatrix object under repeated load (Maths/LinOpState.v) ======================= *)
+From OM Require Import Maths.LinOpState.
+
+Theorem linop_reload_history_independent : forall sparse W h i, l_last true sparse W h i = l_last true sparse W [] i.
+Proof. exact linop_history_independent_lemma. Qed.
+Print Assumptions linop_reload_history_independent.
+
+Theorem dense_reload_history_independent_pinned : forall fixed W h i, l_last fixed false W h i = l_last fixed false W [] i.
+Proof. exact dense_history_independent_lemma. Qed.
+Print Assumptions dense_reload_history_independent_pinned.
+
+Theorem sparse_reload_pinned_refuted : exists W h i, l_last false true W h i <> l_last false true W [] i.
+Proof. exists Lref, [0%nat], 1%nat. exact (proj1 sparse_reload_pinned_refuted_lemma). Qed.
+Print Assumptions sparse_reload_pinned_refuted.
